@@ -528,6 +528,13 @@ func (e *Engine) registerIntrinsics() {
 			if c.exploring {
 				c.yield(true)
 			}
+			// RY=1: the back-off between two attempts lasts until the harness lets time pass
+			// (its next vQuiesce); natively the harness' retry settings use a back-off much
+			// longer than one vQuiesce. Not applied to the harness goroutine itself.
+			if i < R-1 && c.cur != nil && c.cur.id != 0 && c.eng.param(c.entry, "RY", 0) == 1 {
+				epoch := c.quiesceEpoch
+				c.block(func() bool { return c.quiesceEpoch > epoch }, "retry back-off")
+			}
 		}
 		return last
 	}
@@ -719,16 +726,52 @@ func (e *Engine) registerIntrinsics() {
 			}
 			bs[i] = byte(et.U)
 		}
-		var n int
-		if _, err := fmt.Sscanf(string(bs), "json#%d", &n); err != nil || n < 1 || n > len(*jsonReg(c)) {
-			return c.newError(mkStr("invalid json"), nil)
-		}
-		src := (*jsonReg(c))[n-1].(Iface)
 		dst := args[1].(Iface)
 		dp, ok := dst.V.(*Value)
 		if !ok || dp == nil {
 			return c.newError(mkStr("json: Unmarshal(non-pointer)"), nil)
 		}
+		// JSON literals (documented encoding/json behaviour): null sets a pointer to nil and
+		// leaves a struct untouched; {} leaves a struct untouched (allocating it behind a nil
+		// pointer); any other literal cannot be stored into a struct
+		if lit := strings.TrimSpace(string(bs)); !strings.HasPrefix(lit, "json#") {
+			isLit := false
+			for _, l := range []string{"null", "{}", "[]", "0", "\"\"", "true", "false"} {
+				isLit = isLit || lit == l
+			}
+			if pt, ok := dst.T.Underlying().(*types.Pointer); ok && isLit {
+				inner, innerIsPtr := pt.Elem().Underlying().(*types.Pointer)
+				var target types.Type = pt.Elem()
+				if innerIsPtr {
+					target = inner.Elem()
+				}
+				if _, isStruct := target.Underlying().(*types.Struct); isStruct {
+					switch {
+					case lit == "null":
+						if innerIsPtr {
+							*dp = (*Value)(nil)
+						}
+						return Iface{}
+					case lit == "{}":
+						if innerIsPtr {
+							if cur, _ := (*dp).(*Value); cur == nil {
+								cell := new(Value)
+								*cell = zero(target)
+								*dp = cell
+							}
+						}
+						return Iface{}
+					default:
+						return c.newError(mkStr("json: cannot unmarshal the literal into a Go struct"), nil)
+					}
+				}
+			}
+		}
+		var n int
+		if _, err := fmt.Sscanf(string(bs), "json#%d", &n); err != nil || n < 1 || n > len(*jsonReg(c)) {
+			return c.newError(mkStr("invalid json"), nil)
+		}
+		src := (*jsonReg(c))[n-1].(Iface)
 		cp := deepCopy(src, map[*Value]*Value{}).(Iface)
 		// stored *T or T into *T
 		if sp, ok := cp.V.(*Value); ok && types.Identical(src.T, dst.T) {
